@@ -184,7 +184,7 @@ def run(ctx):
 
   # 2. seeded random files ---------------------------------------------------------------------------------------
   for _ in range(6000 if thorough else 700):
-    lines, opts = S.gen_case(rng)
+    lines, opts = S.gen_case(rng, maxcues=3 if rng.random() < 0.97 else 40)      # now and then a file with dozens of cues
     text = S.render_srt(lines, rng, opts["eol"], opts["syntax"], opts["final_eol"])
     record(recs, meta, "random", text, opts, rng.sample(FPS_LIST, 2))
 
